@@ -25,7 +25,7 @@ const ERR_KINDS: [ErrorKind; 8] = [
     ErrorKind::InvalidData,
     ErrorKind::Other,
 ];
-const MAX_INTERRUPTS: u32 = 2;
+const MAX_INTERRUPTS: u32 = 3;
 
 /// Reader whose every answer is a choice point. Option 0 = deliver everything requested.
 struct ChoiceReader<'a> {
